@@ -25,7 +25,11 @@ TRUSTED = [
     "validated by this run against introspection (inspect.signature, class __dict__, __mro__, dir(sparse)) and against recorded "
     "forwarding calls (the wrapped method is replaced by a recorder and the wrapper is called with sentinels)",
     "tie T2: the hand-written lookup model (`nep18`, `arrayUfunc`, `bindArg`) is compared with SparseArray.__array_function__ / "
-    "__array_ufunc__ / inspect.Signature.bind on every array-function-dispatched NumPy function x class x argument shape",
+    "__array_ufunc__ / inspect.Signature.bind on every array-function-dispatched NumPy function x class x argument shape; the body of "
+    "__array_ufunc__ is read statement by statement by the extractor (nout != 1 branch, trial call, outer branch, out= block -> generated "
+    "definitions; any other text is refused) and the model built on those definitions (`arrayUfuncOf`, `ufuncResult`, `outStore`, "
+    "`elemwiseFormat`) is compared with the implementation: routes, recorded component calls of divmod with their operand order, class "
+    "and attribute dictionary of `out` after the out= block for every format x result kind, format of element-wise results",
     "NumPy on the densified operands is the reference for leg C; dtypes are outside C17",
 ]
 
@@ -67,6 +71,8 @@ def dense_of(r):
 
     if isinstance(r, sparse.SparseArray):
         return r.todense()
+    if isinstance(r, tuple | list) and any(isinstance(m, sparse.SparseArray) for m in r):
+        return [dense_of(m) for m in r]
     if sp.issparse(r):
         return r.toarray()
     return r
@@ -972,7 +978,7 @@ def working_array(t, want, f_orig, cls_orig):
               ("follow-up t * 2", lambda: (t * 2).todense(), lambda: want * 2),
               ("follow-up t + t", lambda: (t + t).todense(), lambda: want + want),
               ("follow-up t[0]", lambda: t[0].todense() if t.ndim > 1 else t[0], lambda: want[0]),
-              ("nnz (at least the non-zero elements are stored)", lambda: np.asarray(int(t.nnz) >= int(np.count_nonzero(want))), lambda: np.asarray(True)),
+              ("nnz is readable", lambda: np.asarray(0 <= int(t.nnz) <= want.size), lambda: np.asarray(True)),
               ("asformat round trip", lambda: t.asformat("coo").asformat("gcxs" if cls_orig.__name__ == "GCXS" else cls_orig.__name__.lower()).todense(), lambda: want),
               ("copy", lambda: t.copy().todense() if hasattr(t, "copy") else t.todense(), lambda: want)]
     for name, th, ref in probes:
@@ -1033,6 +1039,20 @@ def leg_c_inplace(ctx, rng):
                                 "x": d.tolist(), "y": e.tolist()}
                         r, err = call(lambda: uf(a, b, out=(c,)))
                         check_target(ctx, "C:out", case, c, r, err, uf(d, e), None, np.ones(shape), fc, cls0, others=[(a, d, fa), (b, e, fb)])
+        # ---- integer power in place: the trial call of the out= path must not depend on leftover memory ---------------------------------
+        di = np.abs(d).astype(np.int64)
+        ei = (np.abs(e) % 3).astype(np.int64)
+        for fa in formats:
+            for fb in formats:
+                for rep in range(2 if ctx.quick else 6):
+                    junk = -np.ones(1 + rep, dtype=np.int64)  # negative leftovers for a later np.empty((1,), int64) to find
+                    del junk
+                    a, b = build(di, fa), build(ei, fb)
+                    cls0 = type(a)
+                    case = {"op": "ipow", "dtype": "int64", "target": fmt_name(fa), "other": fmt_name(fb), "shape": list(shape), "x": di.tolist(), "y": ei.tolist()}
+                    want, ref_err = call(lambda: operator.ipow(di.copy(), ei))
+                    r, err = call(lambda: operator.ipow(a, b))
+                    check_target(ctx, "C:inplace", case, a, r, err, want, ref_err, di, fa, cls0, others=[(b, ei, fb)])
         # ---- calls NumPy itself rejects: the target must be left alone -------------------------------------------------------------
         di = d.astype(np.int64)
         for fa in formats:
